@@ -20,7 +20,7 @@ RULE = ("history = event sequence over {key-addressed operation (get, set, delet
         "failing with ConnectionRefused / timeout / reset / OSError; server i heals} for 1-3 servers x retry_attempts "
         "0/1/2 x ignore_exc off/on (retry_timeout 1, dead_timeout 60). Two back-ends: scripted clients installed through "
         "client_class (each method call is a contact) and real Clients over the fake network (connect/sendall events "
-        "grouped per public call are contacts). Bounded-exhaustive: every sequence up to depth 5 (thorough 6) over an "
+        "grouped per public call are contacts). Bounded-exhaustive: every sequence up to depth 5 (thorough 7) over an "
         "8-symbol alphabet (2 servers; get on each, set_many; three advances; fail/heal of server 0) x all six "
         "configurations; 'probe trains' - server 0 failing, then every sequence of up to 7 (thorough 9) gaps drawn from {below retry_timeout, above it, above dead_timeout} each followed by an operation, with and without a heal part-way; Hypothesis sequences up to length 40. Observation through public seams only: the contact log "
         "and a RendezvousHash subclass passed as hasher= that records (rotation at that instant, key, node) for every "
@@ -347,7 +347,7 @@ ALPHA = [["op", "get", 0], ["op", "get", 1], ["op", "set_many", 0], ["adv", 0.5]
 
 
 def exhaustive_cases(tier, seed):
-    depth = 5 if tier == "quick" else 6
+    depth = 5 if tier == "quick" else 7
     for ra in (0, 1, 2):
         for ie in (False, True):
             for d in range(1, depth + 1):
@@ -415,7 +415,7 @@ PARTS = [
     Part("exhaustive-depth", "enum", check, cases=exhaustive_cases, exhaustive=True, minimise=minimise, distinct_by_construction=True),
     Part("probe-trains", "enum", check, cases=probe_train_cases, exhaustive=True, minimise=minimise, distinct_by_construction=True),
     Part("random-histories", "hyp", check, strategy=history_strategy,
-         examples={"quick": 150, "thorough": 2500}, shards={"quick": 6, "thorough": 16}),
+         examples={"quick": 150, "thorough": 8000}, shards={"quick": 6, "thorough": 16}),
 ]
 
 
